@@ -219,6 +219,7 @@ def gen_cases(tier, seed):
     for pdk, (kvs, degs) in enumerate((([A.clamped_kv(2, [(0.5, 1)])], [2]), ([A.clamped_kv(1, []), A.clamped_kv(2, [(0.5, 1)])], [1, 2]))):
         for wk in ('ones', 'equal5'):
             cases.append(dict(mode='scale_weights', shape=A.shape_desc(kvs, degs, True, 3, 'coded', wk)))
+    cases.append(dict(mode='session', name='sizes'))
     # conversion + weight scaling on shapes
     degs1 = [1, 2, 3]
     for p in degs1:
@@ -249,11 +250,27 @@ def gen_cases(tier, seed):
 
 
 def case_weight(c):
+    if c['mode'] == 'session':
+        return 200
     return 50 if c['mode'] == 'bfs' and c.get('prefix') else 1
+
+
+def _session_cases(name, tier):
+    """long session: the view helpers and the conversions for 4..75 control points in increasing order (72 distinct sizes)"""
+    out = []
+    for n in range(4, 76):
+        out.append(dict(mode='helpers', sizes=[n], dim=3, weights='coded' if n % 2 else 'ones', net='coded'))
+        out.append(dict(mode='convert', shape=A.shape_desc([A.uniform_kv(1 + n % 3, n)], [1 + n % 3], False, 3, 'coded')))
+        if n % 4 == 0:
+            out.append(dict(mode='grid', nu=1, nv=n - 1, weights='coded', order='set_read'))
+    return out
 
 
 def run_case(case, ctx):
     m = case['mode']
+    if m == 'session':
+        import sys
+        return core.run_session(sys.modules[__name__], ctx, case, _session_cases(case['name'], ctx.tier), 16)
     if m == 'bfs':
         sysm = ViewSystem(case['kind'], ctx.seed)
         st = X.bfs(sysm, ctx, case['depth'], deadline=time.time() + (200 if ctx.tier == 'quick' else 2000),
